@@ -48,6 +48,7 @@ type Loaded struct {
 	Art   *packages.Package // the library package
 	Gen   *packages.Package // cmd/go-art
 	Sizes types.Sizes
+	extra map[string][]byte // overlay contents (mutants/variants)
 }
 
 // overlayFile returns the in-memory instantiation file (never written to /repo). It references
@@ -132,7 +133,7 @@ func load(o loadOpts) (*Loaded, error) {
 	if len(pkgs) < 2 {
 		return nil, fmt.Errorf("loaded %d packages from %s, expected >= 2", len(pkgs), repoDir)
 	}
-	l := &Loaded{Arch: o.arch, Fset: fset, Pkgs: pkgs}
+	l := &Loaded{Arch: o.arch, Fset: fset, Pkgs: pkgs, extra: o.extra}
 	var errs []string
 	packages.Visit(pkgs, nil, func(p *packages.Package) {
 		for _, e := range p.Errors {
@@ -194,4 +195,13 @@ func (l *Loaded) artFiles() []*ast.File {
 	}
 	sort.Slice(out, func(i, j int) bool { return l.fileOf(out[i].Pos()) < l.fileOf(out[j].Pos()) })
 	return out
+}
+
+// readFile reads a repository file through the overlay (so that mutants of non-Go files –
+// assembly, the template – are seen by the rules that read them).
+func (l *Loaded) readFile(path string) ([]byte, error) {
+	if b, ok := l.extra[path]; ok {
+		return b, nil
+	}
+	return os.ReadFile(path)
 }
